@@ -639,7 +639,12 @@ func (t *Tree) Compile(file string, args []string, out io.Writer) (err error) {
 			t.StructName = n.String()
 			t.StructVariables = n.Front().String()
 		case TypeRule:
-			if _, ok := t.Rules[n.String()]; !ok {
+			if _, ok := t.Rules[n.String()]; ok {
+				/* only the first definition is used */
+				t.warn(fmt.Errorf("rule '%v' defined more than once", n))
+				n.SetType(TypeUnknown)
+				t.RulesCount--
+			} else {
 				expression := n.Front()
 				cp := expression.Copy()
 				expression.Init()
